@@ -109,6 +109,8 @@ OTHER = {"C05split": ("SplitC05.lean", "LK.Proofs.SplitC05", py2lean_split.trans
          "C08np": ("NpC08.lean", "LK.Proofs.NpC08", py2lean_np.translate_learn, py2lean_np.Unsupported),
          "C04sc": ("ScatterC04.lean", "LK.Proofs.ScatterC04", py2lean_scatter.generate, py2lean_scatter.Unsupported)}
 CASES += [
+ ("C05split", "splitting/users.py", "    if test_only:\n        train_build.clear_relationships(iname)\n    else:", "    if not test_only:\n        train_build.clear_relationships(iname)\n    else:", "break"),
+ ("C05split", "splitting/users.py", "        test_us = users[ts]\n", "        test_us = users[ts[:-1]]\n", "break"),
  ("C05split", "splitting/records.py", "        train_build.add_interactions(iname, df[~mask])", "        train_build.add_interactions(iname, df[mask])", "break"),
  ("C05split", "splitting/records.py", "    train_build.clear_relationships(iname)\n", "", "break"),
  ("C05split", "splitting/records.py", "        end = start + size\n        yield xs[start:end]", "        end = start + size + 1\n        yield xs[start:end]", "break"),
